@@ -290,10 +290,11 @@ def case_close(ctx, spec):
         d = pd.Timestamp(d)
         after = pos[pos.index >= d]
         after = after[after.index > s.data.index[0]]
-        # A security that was never a child before cannot be closed (or marked closed) by the algo when it runs; a later algo of the same
-        # stack may then open it on that one date. The statement speaks of positions the algo can see: exempt the first-ever holding date.
+        # A name that is only declared (a string child, created on first use) matures like any other: once its close date has passed
+        # SelectActive keeps it out and it is never opened - the one exception being the closing algo coming LAST in the stack, where an
+        # earlier algo of the same pass may open it on that one date before the closing algo has seen it
         held = pos[pos != 0]
-        if len(held) and held.index[0] >= d:
+        if spec.get("close_last") and len(held) and held.index[0] >= d:
             after = after[after.index != held.index[0]]
         if (after != 0).any():
             raise Violation("%s has close date %s but holds %r on %s" % (t, d, after[after != 0].iloc[0], after[after != 0].index[0]), signature="c20:not-closed")
@@ -502,7 +503,7 @@ def case_close_roll(ctx, spec):
     rolled_any = False
     for tag, now, pos, p_closed, p_rolled, selected in ev:
         if tag == "close":
-            due = [t for t in sorted(cd) if t not in o_closed and t in pos and pd.Timestamp(cd[t]) <= now]
+            due = [t for t in sorted(cd) if t not in o_closed and pd.Timestamp(cd[t]) <= now]  # child already or not: a matured name is closed
             for t in due:
                 o_closed.add(t)
                 if t in o_rolled and abs(prev.get(t, 0.0)) > 0:
